@@ -223,3 +223,37 @@ pub fn size0_copies(pack: &[u8], offset: u64) -> usize {
     }
     n
 }
+
+/// Parse a git multi-pack-index (harness-side, format v1): object id -> (pack-int-id in PNAM order, offset).
+pub fn parse_midx(path: &Path) -> (Vec<String>, HashMap<ObjectId, (u32, u64)>) {
+    let d = std::fs::read(path).unwrap_or_else(|e| vkit::machinery!("read midx: {e}"));
+    if d.len() < 12 || &d[..4] != b"MIDX" || d[4] != 1 || d[5] != 1 {
+        vkit::machinery!("unexpected multi-pack-index header");
+    }
+    let n_chunks = d[6] as usize;
+    let be32 = |o: usize| u32::from_be_bytes([d[o], d[o + 1], d[o + 2], d[o + 3]]);
+    let be64 = |o: usize| ((be32(o) as u64) << 32) | be32(o + 4) as u64;
+    let mut chunks: HashMap<[u8; 4], (usize, usize)> = HashMap::new();
+    for i in 0..n_chunks {
+        let o = 12 + i * 12;
+        let id = [d[o], d[o + 1], d[o + 2], d[o + 3]];
+        chunks.insert(id, (be64(o + 4) as usize, be64(o + 16) as usize));
+    }
+    let get = |id: &[u8; 4]| *chunks.get(id).unwrap_or_else(|| vkit::machinery!("midx lacks chunk {:?}", String::from_utf8_lossy(id)));
+    let (ps, pe) = get(b"PNAM");
+    let names: Vec<String> = d[ps..pe].split(|b| *b == 0).filter(|n| !n.is_empty()).map(|n| String::from_utf8_lossy(n).into_owned()).collect();
+    let (fs, _) = get(b"OIDF");
+    let n = be32(fs + 255 * 4) as usize;
+    let (ls, _) = get(b"OIDL");
+    let (os, _) = get(b"OOFF");
+    let mut map = HashMap::new();
+    for i in 0..n {
+        let id = ObjectId::from_bytes_or_panic(&d[ls + i * 20..ls + i * 20 + 20]);
+        let ofs = be32(os + i * 8 + 4);
+        if ofs & 0x8000_0000 != 0 {
+            vkit::machinery!("midx uses large offsets, unexpected for small fixtures");
+        }
+        map.insert(id, (be32(os + i * 8), ofs as u64));
+    }
+    (names, map)
+}
